@@ -188,15 +188,21 @@ def gen_scenario(seed, family="mixed"):
 def gen_reusable(seed, family="reuse"):
     """histories of get_reusable_executor calls (resizes, replacements) interleaved with submissions"""
     rnd = random.Random(f"scen/{family}/{seed}")
-    nt = rnd.randint(1, 6)
+    nt = rnd.randint(1, 2) if family == "reusegrow" else rnd.randint(1, 6)
     use_timeout = rnd.random() < 0.6
     scen = {"kind": "reusable", "max_workers": 2, "timeout": 5 if use_timeout else None, "cpu_count": 2,
             "tasks": [gen_task(rnd, "plain") for _ in range(nt)], "family": family}
     big = family == "reusebig"      # more workers than call-queue slots (2*cpu_count+1): the sentinel loop meets Full
     if big:
         scen["cpu_count"] = 1
+    grow = family == "reusegrow"    # a small pool grown while a worker may die: crashes around _resize's spawn
+    if grow:
+        use_timeout = False
+        scen["timeout"] = None
     def call(first=False):
         a = {"max_workers": rnd.choice([4, 5, 6, 2] if big else [1, 2, 3, 4]), "timeout": 5 if use_timeout else None}
+        if grow:
+            a["max_workers"] = rnd.choice([1, 2]) if first else rnd.choice([3, 4, 5])
         if not first:
             r = rnd.random()
             if r < 0.15:
@@ -209,7 +215,7 @@ def gen_reusable(seed, family="reuse"):
                 a["newinit"] = True
         return ["reusable", a]
     users = []
-    nu = rnd.choice([1, 1, 2])
+    nu = 1 if grow else rnd.choice([1, 1, 2])
     ids = list(range(nt))
     rnd.shuffle(ids)
     for u in range(nu):
@@ -225,7 +231,8 @@ def gen_reusable(seed, family="reuse"):
         users.append(sc)
     scen["users"] = users
     scen["sched"] = {"p_timeout": (rnd.choice([0.02, 0.1, 0.3]) if use_timeout else 0.0),
-                     "p_crash": (rnd.choice([0.0, 0.01, 0.02]) if family == "reusecrash" else 0.0), "max_crashes": 1}
+                     "p_crash": (rnd.choice([0.0, 0.01, 0.02]) if family == "reusecrash" else
+                                 rnd.choice([0.02, 0.05]) if grow else 0.0), "max_crashes": 1}
     return scen
 
 
